@@ -89,6 +89,13 @@ CHECKS = {
              'indefinite length, strings segmented up to depth 3, SETs permuted, in all 15 non-empty combinations; every variant is re-parsed by '
              'my strict reader and must decode to the encoded value.',
         note='Variants come from my writer only (the 2^4 combination table is reported); time types are not segmented.'),
+    'C07': dict(
+        category='exploration', design_ref='DESIGN.md 4 C07',
+        technique='runtime monitoring: reference oracle (projection of the version-2 value onto the version-1 AST) over generated version pairs, 7 decoders, both directions',
+        text='V2 specifications are derived from generated V1 specifications by 1-5 legal extension steps at random extensible nodes; V2 encodings are '
+             'decoded under V1 and compared with the projection computed on my ASTs (unknown additions dropped, unknown alternative/item absent, following '
+             'components intact), V1 encodings are decoded under V2 and compared with the value.',
+        note='Cases whose own-version round trip fails are C01 business and skipped (counted); V2 is re-checked for tag distinctness by my tag computation.'),
 }
 
 NOT_YET = 'check under construction in this revision (DESIGN.md section 4); not claimed yet'
